@@ -2,7 +2,7 @@
    [vm_compute] evaluation inside coqc run exactly the same function.
    A case is a list of numbers; the first is the case kind. *)
 From Coq Require Import NArith List Bool.
-From PDB Require Import Gen.Consts Model.IndexPage Model.Pipeline Model.Meta Model.Migrate Model.ValueTable Model.MultiTree Model.BTreeIter Model.BTreeCheck Model.Wal Model.WalCodec Model.StorageCheck.
+From PDB Require Import Gen.Consts Model.IndexPage Model.Pipeline Model.Meta Model.Migrate Model.ValueTable Model.MultiTree Model.BTreeIter Model.BTreeCheck Model.Wal Model.WalCodec Model.StorageCheck Model.Lock.
 Import ListNotations.
 Open Scope N_scope.
 
@@ -497,6 +497,30 @@ Definition run_c14 (l : list N) : list N :=
   | _ => err_marker
   end.
 
+(* ---- kind 18: lock protocol. 18 n op* ; op: 1 h open | 2 h drop | 3 h kill | 4 h c write.
+   Output: one result per op, 99, the live handles, 98, the content ---- *)
+Fixpoint parse_lops (fuel : nat) (l : list N) : list lop :=
+  match fuel with
+  | O => []
+  | S f =>
+      match l with
+      | 1 :: h :: r => LOpen h :: parse_lops f r
+      | 2 :: h :: r => LDrop h :: parse_lops f r
+      | 3 :: h :: r => LKill h :: parse_lops f r
+      | 4 :: h :: c :: r => LWrite h c :: parse_lops f r
+      | _ => []
+      end
+  end.
+Definition run_c18 (l : list N) : list N :=
+  match l with
+  | n :: rest =>
+      let ops := parse_lops (N.to_nat n) rest in
+      let s0 := {| holder := None; content := 0 |} in
+      let '(s, xs) := lrun s0 ops in
+      xs ++ [99] ++ live s0 ops [] ++ [98; content s]
+  | _ => err_marker
+  end.
+
 Definition dispatch (l : list N) : list N :=
   match l with
   | 19 :: rest => run_c19 rest
@@ -505,6 +529,7 @@ Definition dispatch (l : list N) : list N :=
   | 9 :: rest => run_c09 rest
   | 13 :: rest => run_c13 rest
   | 14 :: rest => run_c14 rest
+  | 18 :: rest => run_c18 rest
   | 12 :: rest => run_c12 rest
   | 4 :: rest => run_c04_tree rest
   | 10 :: rest => run_c10 rest
